@@ -243,7 +243,7 @@ class C20(Prop):
             return self.gen_filtered(rng)
         if r < 0.42:
             return self.gen_nested(rng)
-        if r < 0.55:
+        if r < 0.64:
             return self.gen_multi_occurrence(rng)
         nv = rng.choice([1, 2, 2, 3])
         c = lang.GenCfg(vars=list(lang.VAR_POOL[:nv]), max_depth=rng.choice([1, 2, 2, 3, 4, 5]), since_until=False,
